@@ -95,9 +95,9 @@ class Value:
         if isinstance(value, Value):
             value.parent = self
 
-        if self.result and isinstance(self._value, list):
+        if isinstance(self._value, list):
             self._value.append(value)
-        elif self.result:
+        elif self._value is not None:
             self._value = [self._value]
             self._value.append(value)
         else:
@@ -105,7 +105,7 @@ class Value:
 
         def update(o, v):
             if isinstance(v, Value):
-                o.errors = v.errors
+                o.errors = o.errors or v.errors
                 o.result = v.result
             elif v is not None:
                 o.result = True
@@ -113,7 +113,7 @@ class Value:
                 o.inform()
 
             if o.parent is not o:
-                o.parent.errors = o.errors
+                o.parent.errors = o.parent.errors or o.errors
                 o.parent.result = o.result
                 update(o.parent, v)
 
